@@ -90,6 +90,7 @@ POSITIONS = {
     "types.rs:emit_pattern:fname": "struct-pattern-field",
     "types.rs:emit_pattern:s": "enum-pattern-path-segment",
     "types.rs:emit_pattern:variant": "enum-variant",
+    "expressions/indexing.rs:emit_member:Self :: escape_keyword ( field )": "field-access",   # shared helper: field read / assignment target / struct-literal field
     "decls.rs:emit_impl:Self :: escape_keyword ( & p . name )": "method-parameter",   # `__eq__` right-hand operand (after the eq-param-name fix)
     # --- the same 45 sites as spelled after the `fix:` commits (fed expression now goes through escape_keyword)
     "decls.rs:emit_decl:Self :: escape_keyword ( name )": "type-alias-name",
@@ -146,6 +147,8 @@ POSITIONS = {
 AUDITED_SPELLING = {
     "emit/decls.rs:emit_struct:f.name.chars()": "all-digits test = tuple struct (newtype field `0`); identifiers never start with a digit",
     "emit/expressions/indexing.rs:emit_field_expr:field.chars()": "all-digits test = tuple index `.0`; identifiers never start with a digit",
+    "emit/expressions/indexing.rs:emit_member:field.chars()": "the same all-digits test after it moved into the shared helper emit_member (field read, assignment target, struct literal): "
+                                                               "a non-empty all-digit name is a tuple index; an identifier never starts with a digit, so no renaming of identifiers changes the branch",
     "emit/program.rs:emit_program:formatted.contains(\"]\\nuse \")": "looks for the end of the inner-attribute block in the formatted text, not at a name",
     "emit/program.rs:emit_program:formatted.contains(\"]\\n\\nuse \")": "same as above",
     "emit/program.rs:to_axum_path:path.chars()": "route path string literal, not an identifier",
